@@ -40,7 +40,7 @@ func sysInvalid(rng *proto.Rng) []sysObj {
 	case 3: // unknown type
 		return []sysObj{{ID: jid{"ns1", "foo", "example.com", "Foo"}}}
 	case 4: // malformed dependency reference
-		return []sysObj{{ID: jid{"ns1", "bad", "", "ConfigMap"}, DepsRaw: "not/a/valid/ref"}}
+		return []sysObj{{ID: jid{"ns1", "bad", "", "ConfigMap"}, DepsRaw: proto.Pick(rng, []string{"not/a/valid/ref", "<empty>"})}}
 	case 5: // external dependency
 		return []sysObj{{ID: jid{"ns1", "ext", "", "ConfigMap"}, Deps: []jid{{"ns1", "absent", "", "ConfigMap"}}}}
 	case 6: // duplicate dependency
@@ -407,6 +407,13 @@ func sysHandWritten() []sysIn {
 		{Pre: pre, Runs: []sysRun{{Kind: "apply", Objs: []sysObj{soA, soD}}, {Kind: "apply", Objs: []sysObj{{ID: soA.ID, Rev: 1}, soD}, FailMut: []int{0}, FailCode: 422}, {Kind: "apply", Objs: []sysObj{{ID: soA.ID, Rev: 1}, soD}}}},
 		{Pre: pre, Runs: []sysRun{{Kind: "apply", Objs: []sysObj{soA, soD}}, {Kind: "apply", Objs: []sysObj{{ID: soA.ID, Rev: 2}, {ID: soD.ID, Rev: 2}}, FailMut: []int{1}, FailCode: 422}, {Kind: "destroy"}}},
 		{Pre: pre, Runs: []sysRun{{Kind: "apply", Objs: []sysObj{soA}}, {Kind: "apply", Objs: []sysObj{{ID: soA.ID, Rev: 1}}, FailMut: []int{0}, FailCode: 409}, {Kind: "apply", Objs: []sysObj{{ID: soA.ID, Rev: 3}}, FailMut: []int{0}, FailCode: 403}}},
+		// a depends-on annotation whose value is the empty string is malformed like any other text that is no reference
+		{Pre: pre, Runs: []sysRun{{Kind: "apply", Objs: []sysObj{soA, {ID: soD.ID, DepsRaw: "<empty>"}}}}},
+		{Pre: pre, Runs: []sysRun{{Kind: "apply", Objs: []sysObj{soA, soD}}, {Kind: "apply", Objs: []sysObj{soA, {ID: soD.ID, DepsRaw: "<empty>"}}, Opts: sysOpts{SkipInvalid: true}}, {Kind: "destroy"}}},
+		// the last pending object of a wait phase turns out to have been replaced by somebody else (another UID) and NO timeout is
+		// configured: the apply phase's wait ends at once (Failed), the run goes on and ends
+		{Pre: pre, Runs: []sysRun{{Kind: "apply", Objs: []sysObj{soA}, Ctrl: map[string]string{idKey(soA.ID): "replaced"}}, {Kind: "destroy"}}},
+		{Pre: pre, Runs: []sysRun{{Kind: "apply", Objs: []sysObj{soA, soD}, Ctrl: map[string]string{idKey(soD.ID): "replaced"}}, {Kind: "apply", Objs: []sysObj{soA, soD, soB}}}},
 		// the same id twice in an apply set: applied once (the last copy); a rejected apply of it is ONE failed apply of a new object
 		{Pre: pre, Runs: []sysRun{{Kind: "apply", Objs: []sysObj{soA, {ID: soA.ID, Rev: 1}}}, {Kind: "destroy"}}},
 		{Pre: pre, Runs: []sysRun{{Kind: "apply", Objs: []sysObj{soA, soD, {ID: soA.ID, Rev: 1}}, FailMut: []int{2}}, {Kind: "destroy"}}},
